@@ -7,6 +7,7 @@
    create_fail_mask makes chosen pthread_create calls of the run fail with EAGAIN (single-thread fallback for the leftover partitions).
    ops: A<i> add entry i, U<i> add_unique, R<i> add_replace, L<i> lookup (hash,key) of entry i (sets the thread's iterator), N next_duplicate on
    the iterator, X del the iterator's node, x the same followed - when it succeeds - by a grace period and the release of the node (every later access to it is reported), P<i> replace the iterator's node by entry i, T full traversal (first/next), Z<k> resize to 2^k, z<d> resize to d (any count),
+   c<k> the lazy resize request add / del issue when the node count crosses a threshold: cds_lfht_resize_lazy_count(table, size read now, 2^k) (AUTO_RESIZE tables),
    C count_nodes, Y cds_lfht_destroy (the program must not use the table afterwards; the end-of-run checks are skipped).  Each operation is one read-side critical
    section (resize and destroy are called outside any). */
 #define _LGPL_SOURCE
@@ -68,6 +69,7 @@ static void body(int t){ struct cds_lfht_iter it; it.node=0; it.next=0; int itke
 	case 'P': { p++; vs_call("replace",idof(it.node)); vs_note("with %d",i); f_lock(); int r=cds_lfht_replace(ht,&it,EH[i],match,&E[i].key,&E[i].n); f_unlock(); vs_ret("replace",r); break; }
 	case 'T': { char buf[512]; int l=0; buf[0]=0; struct cds_lfht_iter ti; struct cds_lfht_node *x; vs_call("trav",0); f_lock();
 		cds_lfht_for_each(ht,&ti,x){ if(l<480) l+=sprintf(buf+l,"%d,",((struct ent*)x)->id); } f_unlock(); vs_note("visited %s",buf); vs_ret("trav",0); break; }
+	case 'c': p++; { unsigned long sz=rcu_dereference(ht->size); vs_call("lazycount",1UL<<i); vs_note("lazysize %lu",sz); f_lock(); cds_lfht_resize_lazy_count(ht,sz,1UL<<i); f_unlock(); vs_ret("lazycount",0); } break;
 	case 'Z': p++; vs_call("resize",1UL<<i); cds_lfht_resize(ht,1UL<<i); vs_ret("resize",0); break;
 	case 'z': p++; vs_call("resize",(unsigned long)i); cds_lfht_resize(ht,(unsigned long)i); vs_ret("resize",0); break;
 	case 'Y': { vs_call("destroy",0); int r=cds_lfht_destroy(ht,NULL); destroyed=1; vs_ret("destroy",(unsigned long)r); break; }
